@@ -363,8 +363,9 @@ def rule_b3(ck, prog, S):
                     continue
                 sw = [c for c in ps.calls if (c.get("callee") or "").startswith("SCPI_Swap")]
                 loops = len(data)
-                if loops == 0:
-                    continue   # count == 0 path
+                cv = ps.env.get(cnt)
+                if loops == 0 or (cv is not None and cv.kind == "const" and cv.v == 0):
+                    continue   # count == 0 path: nothing to swap
                 if not sw or any(c.get("callee") != "SCPI_Swap%d" % (width * 8) for c in sw):
                     probs.append("width %d elements are passed through %s" % (width, sorted({c.get("callee") for c in sw}) or "no swap"))
                     continue
@@ -477,6 +478,32 @@ def rule_b6(ck, prog, S):
                         "accounting is wrong" % (f.name, "writes payload with writeData" if bypass else "counts the item"))
         else:
             ck.holds("C17-B6", st, K.loc(f, hdrs[0]), "no direct payload write / item count after the header")
+        # every announced block is completed: a path from the header to the exit without any data call leaves a block of
+        # length 0 announced but never counted as an item (the completion test lives in the data call)
+        st2 = K.site(f, "announced-block-completed", 0)
+        bad = None
+        npaths = 0
+        try:
+            for ps in P.summarize(f, max_visits=2):
+                names = [c.get("callee") for c in ps.calls]
+                if "SCPI_ResultArbitraryBlockHeader" not in names:
+                    continue
+                npaths += 1
+                k = names.index("SCPI_ResultArbitraryBlockHeader")
+                if "SCPI_ResultArbitraryBlockData" not in names[k + 1:] and "SCPI_ResultArbitraryBlock" not in names[k + 1:]:
+                    bad = bad or ps
+        except P.TooManyPaths:
+            ck.undecided("C17-B6", st2, K.loc(f, hdrs[0]), "too many paths")
+            continue
+        if bad is not None:
+            ck.violated("C17-B6", st2, K.loc(f, hdrs[0]),
+                        "%s can announce a block and return without a single data call (for example an empty array): the block "
+                        "'#10' is complete but is never counted as a result item, so the next item of the unit is written without "
+                        "its comma" % f.name, {"path": bad.describe()[-8:]})
+        elif npaths == 0:
+            ck.anchor_lost("C17-B6", "%s: no path through the header call" % f.name)
+        else:
+            ck.holds("C17-B6", st2, K.loc(f, hdrs[0]), "each of the %d feasible paths through the header passes a data call" % npaths)
     f = prog.fn("SCPI_ResultArbitraryBlock")
     if f is None:
         ck.anchor_lost("C17-B6", "SCPI_ResultArbitraryBlock")
